@@ -293,6 +293,7 @@ def parse_switch(
     start_at: int = 1,
     case_numbers: list[int | Literal["default"]] | None = None,
     with_str: str | None = None,
+    guard_single_case: bool = False,
 ) -> str:
     """
     Create a binary tree for JMC switch-case
@@ -302,6 +303,7 @@ def parse_switch(
     :param datapack: Datapack object
     :param name: Private function's group name, defaults to SWITCH_CASE_NAME
     :param case_numbers: List of case numbers provided (only matters with post-1.20.2 switch)
+    :param guard_single_case: Whether a binary tree of a single case tests its case number (there is no range test when there is nothing to split)
     :return: Minecraft function call to initiate switch case
     """
     assert not isinstance(scoreboard_player.value, int)
@@ -357,9 +359,12 @@ def parse_switch(
         name,
         start_at,
     )
+    call_root = datapack.call_func(name, func_count)
+    if guard_single_case and len(func_contents) == 1:
+        call_root = f"execute if score {switch_id} {datapack.var_name} matches {start_at} run {call_root}"
     return (
         f"scoreboard players operation {switch_id} {datapack.var_name} = {scoreboard_player.value[1]} {scoreboard_player.value[0]}\n"
-        + datapack.call_func(name, func_count)
+        + call_root
     )
 
 
@@ -540,6 +545,7 @@ def switch(
         start_at=case_start,
         case_numbers=case_numbers,
         with_str=with_str,
+        guard_single_case=True,
     )
 
 
